@@ -126,3 +126,19 @@ func VerifCloseGroupChain() {
 	}
 	groupChainImpl = nil
 }
+
+// VerifForkSwitch drives the fork-processing path of the sync processor without the network:
+// a block fork is created at the given common ancestor (a block of the local chain), the
+// branch blocks are stored on it as the sync processor does after verifying them, and
+// triggerOnChain tries to switch the local chain over. Returns triggerOnChain's result.
+func VerifForkSwitch(ancestor *types.Block, branch []*types.Block) bool {
+	fork := newBlockChainFork(*ancestor)
+	for _, b := range branch {
+		fork.insertBlock(b)
+		fork.latestBlock = b.Header
+	}
+	fork.rcvLastBlock = true
+	ok := fork.triggerOnChain(blockChainImpl)
+	fork.destroy()
+	return ok
+}
